@@ -155,7 +155,8 @@ def run_config(chk, ctx, name):
         configs = []
 
         def ob(self, rule, instance, ok, detail="", where=None, key=None, sample=False):
-            if rule.startswith("P1."):
+            # P2 (decomposition of the counter into per-level leaves): 'by that level's current leaf' for counter c
+            if rule.startswith("P1.") or rule.startswith("P2."):
                 chk.ob("H7." + rule, instance, ok, detail, where=where, key=key)
 
         def count(self, *a, **k):
